@@ -3,7 +3,7 @@
    index-stack re-creation of equivalences).  Proofs: CloneProofs.v.  `all_fixed` = the code with fixes/C11-*.diff;
    `pinned` = the tree before them; `original` = additionally before 84a9d17 (Reset order). *)
 From Coq Require Import List String ZArith QArith Bool Arith Lia.
-From LC Require Import CloneDefs CloneProofs CloneEqualsProofs CloneEqualsModelProofs.
+From LC Require Import CloneDefs CloneProofs CloneEqualsProofs CloneEqualsModelProofs CloneRound6Proofs.
 Import ListNotations.
 Local Open Scope string_scope.
 Local Open Scope nat_scope.
@@ -428,3 +428,31 @@ Proof.
   split; [vm_compute; reflexivity|]. split; [reflexivity|]. vm_compute in E. injection E as <- _. split; vm_compute; reflexivity.
 Qed.
 Print Assumptions C11_clone_model_equals_refuted.
+
+(* ================================================================= 7. independence under SEQUENCES of mutations ===== *)
+(* CloneRound6Proofs.v.  Any finite sequence of API calls, each on an object not reachable from y, leaves y unchanged *)
+Theorem C11_independent_seq : forall mus,
+  (forall u, Forall (fun mu => ~ In (mut_target mu) (units_oids u)) mus -> fold_left (fun y mu => apply_units mu y) mus u = u) /\
+  (forall v, Forall (fun mu => ~ In (mut_target mu) (var_oids v)) mus -> fold_left (fun y mu => apply_variable mu y) mus v = v) /\
+  (forall r, Forall (fun mu => ~ In (mut_target mu) (reset_oids r)) mus -> fold_left (fun y mu => apply_reset mu y) mus r = r) /\
+  (forall c, Forall (fun mu => ~ In (mut_target mu) (comp_oids c)) mus -> fold_left (fun y mu => apply_component mu y) mus c = c) /\
+  (forall m, Forall (fun mu => ~ In (mut_target mu) (model_oids m)) mus -> fold_left (fun y mu => apply_model mu y) mus m = m).
+Proof. exact CloneRound6Proofs.independent_seq. Qed.
+Print Assumptions C11_independent_seq.
+
+(* after clone(): ANY sequence of calls on objects that existed before the call (identity < n -- no matter what the
+   original has become in between) leaves the clone unchanged (no premise on the original at all); any sequence of calls
+   on objects created by the call or later (identity >= n) leaves the original unchanged *)
+Theorem C11_clone_model_independent_seq : forall ext n m m' n' mus,
+  clone_model all_fixed ext n m = Some (m', n') ->
+  (Forall (fun mu => mut_target mu < n) mus -> fold_left (fun y mu => apply_model mu y) mus m' = m') /\
+  (rng 0 n (model_oids m) -> Forall (fun mu => n <= mut_target mu) mus -> fold_left (fun y mu => apply_model mu y) mus m = m).
+Proof. exact CloneRound6Proofs.clone_model_independent_seq. Qed.
+Print Assumptions C11_clone_model_independent_seq.
+
+Theorem C11_clone_component_independent_seq : forall n c c' n' mus,
+  clone_component all_fixed n c = (c', n') ->
+  (Forall (fun mu => mut_target mu < n) mus -> fold_left (fun y mu => apply_component mu y) mus c' = c') /\
+  (rng 0 n (comp_oids c) -> Forall (fun mu => n <= mut_target mu) mus -> fold_left (fun y mu => apply_component mu y) mus c = c).
+Proof. exact CloneRound6Proofs.clone_component_independent_seq. Qed.
+Print Assumptions C11_clone_component_independent_seq.
